@@ -155,13 +155,18 @@ pub fn cli(run: &dyn Fn(&Cfg) -> Option<Report>, replay_fn: &dyn Fn(&Cfg, &Value
     std::env::set_var("SSL_CERT_FILE", "/dev/null");
     std::env::set_var("SSL_CERT_DIR", "/nonexistent-rdpverif");
     mon::install_panic_hook();
-    mon::install_death_recorder(2);
-    mon::start_watchdog(cpu_limit, wall_limit);
+    // under Miri there are no signals and no thread CPU clocks; the interpreter itself is the monitor
+    if !cfg!(miri) {
+        mon::install_death_recorder(2);
+        mon::start_watchdog(cpu_limit, wall_limit);
+    }
     let t0 = std::time::Instant::now();
     let rep = if let Some(path) = replay {
         // the replayed case runs on this thread: put it under the CPU watchdog and the death recorder
-        mon::register_thread(0);
-        mon::begin_case(0, 0, 0, 0);
+        if !cfg!(miri) {
+            mon::register_thread(0);
+            mon::begin_case(0, 0, 0, 0);
+        }
         let txt = std::fs::read_to_string(&path).expect("read replay file");
         let v: Value = serde_json::from_str(&txt).expect("parse replay file");
         let case = v.get("replay").cloned().unwrap_or(v);
